@@ -211,7 +211,8 @@ def make_controller(mk, n, nlevels=1, cparams=None, M=1, kind='full', level_para
         from vc.native import ConcreteLinearProblem as problem_class
     trace = []
     Ms = Ms or [M] * nlevels
-    sp = dict(num_nodes=list(Ms) if nlevels > 1 else Ms[0], quad_type='RADAU-RIGHT')
+    # equal node counts are passed as ONE scalar (some convergence controllers cannot digest per-level lists)
+    sp = dict(num_nodes=list(Ms) if (nlevels > 1 and len(set(Ms)) > 1) else Ms[0], quad_type='RADAU-RIGHT')
     sp.update(sweeper_params or {})
     lp = dict(dt=1.0, restol=1e-10)
     lp.update(level_params or {})
